@@ -105,7 +105,7 @@ def bound(t):
         exponents_wider=g.EXP if t else g.EXPQ,
         radix={'2': 'all of the above', '3,8,10': '8-bit reps, E in %s; a few int32/int64/uint16 programs' % (RADIX_E if t else RADIX_EQ)},
         buffer_lengths='every length 0..max(to_chars_capacity, longest numeral of the type in the base)+2',
-        seam='to_chars_positive: 91 digit strings of 1..19 digits x exponents -95..95 x lengths 0..40',
+        seam='to_chars_positive: 92 digit strings of 1..19 digits x exponents -95..95 x lengths 0..40',
         to_chars_static_base=dict(types=['int8', 'uint8', 'int16', 'uint16', 'int32', 'int64'] if t else ['int8', 'uint8', 'int32'], bases=[2, 3, 8, 16, 36] if t else [2, 8, 16]),
         arena='4 KiB sentinel before and >= 4 KiB after the buffer, 1 MiB PROT_NONE fences')
 
